@@ -18,6 +18,53 @@ class Machinery(Exception):
   """Harness/engine failure: exit 2, never a VIOLATION."""
 
 
+class StepTimeout(BaseException):
+  """Raised inside the code under test by the watchdog timer: the step did not return.  A BaseException so that
+  `except Exception` in the code under test does not swallow it; the timer re-fires every second until the
+  exception has propagated out of code that catches everything."""
+
+
+STEP_TIMEOUT = float(os.environ.get("VERIF_STEP_TIMEOUT", "180"))     # one replayed step
+ITEM_TIMEOUT = float(os.environ.get("VERIF_ITEM_TIMEOUT", "600"))     # one driver item
+
+
+_WD = [0]
+
+
+def _alarm(_sig, _frm):
+  if _WD[0]:
+    raise StepTimeout()
+
+
+class watchdog(object):
+  """with watchdog(seconds): ...  - SIGALRM based, main thread of a worker process only; no-op elsewhere."""
+  def __init__(self, seconds):
+    self.s = seconds
+    self.on = False
+
+  def __enter__(self):
+    import signal, threading
+    if self.s and threading.current_thread() is threading.main_thread():
+      try:
+        self.old = signal.signal(signal.SIGALRM, _alarm)
+        _WD[0] += 1
+        signal.setitimer(signal.ITIMER_REAL, self.s, 1.0)
+        self.on = True
+      except (ValueError, OSError):
+        self.on = False
+    return self
+
+  def __exit__(self, *a):
+    if self.on:
+      import signal
+      _WD[0] -= 1
+      signal.setitimer(signal.ITIMER_REAL, 0)
+      # never restore the default action: a SIGALRM already on its way must not kill this worker
+      if callable(self.old) and self.old is not _alarm:
+        signal.signal(signal.SIGALRM, self.old)
+    return False
+
+
 def canon(x):
   return json.dumps(x, sort_keys=True, separators=(",", ":"))
 
@@ -213,10 +260,13 @@ def _replay_chunk(arg):
       res = ("ok", bi, len(beh), None)
       for i, st in enumerate(beh):
         try:
-          obs = ad.step(st["a"], st.get("args"))
+          with watchdog(STEP_TIMEOUT):
+            obs = ad.step(st["a"], st.get("args"))
         except Machinery:
           return ("machinery", traceback.format_exc())
-        except Exception as e:
+        except BaseException as e:
+          # BaseException: a SystemExit / KeyboardInterrupt / StepTimeout escaping the code under test is an
+          # observation (and must not kill the worker, which would hang the pool)
           obs = {"EXC": type(e).__name__, "msg": str(e)[:200],
                  "tb": traceback.format_exc()[-1500:]}
         obs = json.loads(canon(obs))
@@ -242,13 +292,30 @@ def _replay_chunk(arg):
         break
       try:
         if hasattr(ad, "close"):
-          ad.close()
-      except Exception:
+          with watchdog(STEP_TIMEOUT):
+            ad.close()
+      except BaseException:
         pass
       out.append(res)
     return ("done", out)
-  except Exception:
+  except BaseException:
     return ("machinery", traceback.format_exc())
+
+
+def _pool_map(fn, args, procs):
+  """map over worker processes (fork); a worker that dies (os._exit, signal, OOM) is a machinery failure
+  instead of an endless wait."""
+  from concurrent.futures import ProcessPoolExecutor
+  from concurrent.futures.process import BrokenProcessPool
+  mp = multiprocessing.get_context("fork")
+  out = []
+  try:
+    with ProcessPoolExecutor(max_workers=procs, mp_context=mp) as ex:
+      for r in ex.map(fn, args):
+        out.append(r)
+  except BrokenProcessPool:
+    raise Machinery("a worker process died while running the code under test")
+  return out
 
 
 def replay(ctx, adapter_spec, behaviours, params=None, procs=None,
@@ -271,10 +338,7 @@ def replay(ctx, adapter_spec, behaviours, params=None, procs=None,
     for a in args:
       results.append(_replay_chunk(a))
   else:
-    mp = multiprocessing.get_context("fork")
-    with mp.Pool(procs) as pool:
-      for r in pool.imap_unordered(_replay_chunk, args):
-        results.append(r)
+    results = _pool_map(_replay_chunk, args, procs)
   stats = dict(ok=0, diverted=0, mismatch=0)
   ok_idx = []
   for r in results:
@@ -310,8 +374,12 @@ def _drive_chunk(arg):
     if VERIF not in sys.path:
       sys.path.insert(0, VERIF)
     f = getattr(__import__(modname, fromlist=[fn]), fn)
-    return ("done", [f(x) for x in items])
-  except Exception:
+    out = []
+    for x in items:
+      with watchdog(ITEM_TIMEOUT):
+        out.append(f(x))
+    return ("done", out)
+  except BaseException:
     return ("machinery", traceback.format_exc())
 
 
@@ -321,12 +389,10 @@ def run_driver(spec, items, procs=16, chunk=None):
   chunk = chunk or max(1, min(200, len(items) // (procs * 2) or 1))
   chunks = [(spec, items[i:i + chunk]) for i in range(0, len(items), chunk)]
   out = []
-  mp = multiprocessing.get_context("fork")
-  with mp.Pool(min(procs, len(chunks))) as pool:
-    for r in pool.imap(_drive_chunk, chunks):
-      if r[0] == "machinery":
-        raise Machinery("driver failure:\n" + r[1])
-      out.extend(r[1])
+  for r in _pool_map(_drive_chunk, chunks, min(procs, len(chunks))):
+    if r[0] == "machinery":
+      raise Machinery("driver failure:\n" + r[1])
+    out.extend(r[1])
   return out
 
 
